@@ -481,6 +481,11 @@ Mut(m, t) ==
         {Tag([t EXCEPT !.rev[1].c.vo[2].val = @ + 1], "validsum"), Tag([t EXCEPT !.rev[1].c.mo[2].val = @ + 1], "missedsum"),
          Tag([t EXCEPT !.rev[1].c.rn = m.c1[t.rev[1].cid].rn], "samern")} ELSE {})
 \cup (IF "proof" \in Defects /\ t.res # <<>> /\ t.res[1].kind = "proof" THEN {Tag([t EXCEPT !.res[1].pf = p], p) : p \in {"wrongleaf", "wrongdata", "short"}} ELSE {})
+\* a v1 transaction with a storage proof may carry nothing else that changes a contract: the proof is checked against the
+\* contract as it stood before the transaction, a revision in the same transaction would be paid out
+\cup (IF "proof" \in Defects /\ t.res # <<>> /\ t.ver = 1 /\ t.rev = <<>> /\ t.res[1].cid \in DOMAIN m.c1 THEN
+        (IF m.c1[t.res[1].cid].rn < MaxRN - 1 /\ m.c1[t.res[1].cid].vo[1].val > 0
+         THEN {Tag([t EXCEPT !.rev = <<[cid |-> t.res[1].cid, c |-> Rev1(m.c1[t.res[1].cid], 1, 2), auth |-> "ok"]>>], "withrev")} ELSE {}) ELSE {})
 \cup (IF "formation" \in Defects /\ t.fc # <<>> /\ t.ver = 2 THEN
         {Tag([t EXCEPT !.fc[1].ph = child - 1, !.fc[1].eh = child], "phpast"), Tag([t EXCEPT !.fc[1].eh = t.fc[1].ph], "nowindow"),
          Tag([t EXCEPT !.fc[1].mh = t.fc[1].h + 1], "missedhigh"), Tag([t EXCEPT !.fc[1].auth = "badsig"], "badsig")} ELSE {})
